@@ -611,35 +611,32 @@ fn build_filter(lhs: &AstNode, rhs: &AstNode) -> Result<Evaluator> {
 ///
 fn build_for(lhs: &AstNode, rhs: &AstNode) -> Result<Evaluator> {
   let rhe = build_evaluator(rhs)?;
-  let mut evaluators_single = vec![];
-  let mut evaluators_range = vec![];
+  // iteration contexts in the order of their declaration: (name, list or range start, optional range end)
+  let mut evaluators = vec![];
   if let AstNode::IterationContexts(items) = lhs {
     for item in items {
       if let AstNode::IterationContextSingle(variable_name, expr_node) = item {
         if let AstNode::Name(name) = variable_name.borrow() {
           let evaluator_single = build_evaluator(expr_node)?;
-          evaluators_single.push((name.clone(), evaluator_single));
+          evaluators.push((name.clone(), evaluator_single, None));
         }
       }
       if let AstNode::IterationContextRange(variable_name, range_start_node, range_end_node) = item {
         if let AstNode::Name(name) = variable_name.borrow() {
           let evaluator_range_start = build_evaluator(range_start_node)?;
           let evaluator_range_end = build_evaluator(range_end_node)?;
-          evaluators_range.push((name.clone(), evaluator_range_start, evaluator_range_end));
+          evaluators.push((name.clone(), evaluator_range_start, Some(evaluator_range_end)));
         }
       }
     }
   }
   Ok(Box::new(move |scope: &Scope| {
     let mut expression_evaluator = ForExpressionEvaluator::new();
-    if !evaluators_single.is_empty() {
-      for (name, evaluator_single) in &evaluators_single {
-        expression_evaluator.add_single(name.clone(), evaluator_single(scope));
-      }
-    }
-    if !evaluators_range.is_empty() {
-      for (name, evaluator_range_start, evaluator_range_end) in &evaluators_range {
-        expression_evaluator.add_range(name.clone(), evaluator_range_start(scope), evaluator_range_end(scope));
+    for (name, evaluator_single_or_range_start, evaluator_range_end) in &evaluators {
+      if let Some(evaluator_range_end) = evaluator_range_end {
+        expression_evaluator.add_range(name.clone(), evaluator_single_or_range_start(scope), evaluator_range_end(scope));
+      } else {
+        expression_evaluator.add_single(name.clone(), evaluator_single_or_range_start(scope));
       }
     }
     Value::List(expression_evaluator.evaluate(scope, &rhe))
